@@ -20,6 +20,7 @@ PROFILES = {
     'hidden': {'hidden_bars': True},
     'explore_chords': {'chords': 'explore'},
     'kern_only': {'kern_only': True, 'chords': 'core'},
+    'blank_free_text': {'first_kern': 0.7, 'types': ['**text', '**dynam', '**harm', '**fing'], 'nonkern_tandem': False, 'max_rows': 12},
     'multi_sigs': {'multi_sigs': True},
     # scores with a **root spine (notes and rests read by the kern grammar, as in chorale analyses) next to **kern and other spines
     'with_root': {'types': ['**root', '**root', '**root', '**text', '**harm'], 'first_kern': 0.5, 'root_plain': True},          # signifiers of more than one character ('&(' '[y' 'Ww' 'L<' ...) among the others
@@ -285,7 +286,17 @@ def agn_classes(lines, cats_sel=None):
     return cl
 
 
-def sess_c04(seed, profile='main', own_types=False):
+def sess_c04(seed, profile='main', own_types=False, blanks=False):
+    if blanks:
+        # free text with runs of blanks, leading / trailing blanks and other white space: identical in the six encodings, character for character
+        saved = dict(gen.OWNPOOL)
+        try:
+            for k in list(gen.OWNPOOL):
+                gen.OWNPOOL[k] = ['foo  bar', ' lead', 'trail ', 'nb\u00a0sp', 'x\x0by', 'a   b', 'two  runs  here', '\u3000wide']
+            return sess_c04(seed, profile='blank_free_text')
+        finally:
+            gen.OWNPOOL.clear()
+            gen.OWNPOOL.update(saved)
     if own_types:
         # spine types of the user's own whose names begin with the letters of an encoding prefix (e, b, be, a, ae): the header is
         # '**' + prefix + original type all the same ('**embel' in eKern is '**eembel')
@@ -462,8 +473,10 @@ def random_options(r, types, agn=True):
     near = [t0[:-2], t0 + '2', t0.upper(), '**dyn' if '**dynam' in present else t0[:-1]]
     ts = r.choice([None, None, r.sample(present, r.randint(1, len(present))), ['**kern'], present + ['**mens'],
                    r.sample(near, 2) + r.sample(present, r.randint(0, len(present) - 1))])
-    inc = r.choice([None, None, [r.choice(CATS)], r.sample(CATS, r.randint(1, 5)), ['CORE', 'STRUCTURAL', 'SIGNATURES', 'BARLINES']])
-    exc = r.choice([None, None, [r.choice(CATS)], r.sample(CATS, r.randint(1, 3))])
+    # (among them selections under which a note keeps nothing but its signifiers - or nothing at all)
+    inc = r.choice([None, None, [r.choice(CATS)], r.sample(CATS, r.randint(1, 5)), ['CORE', 'STRUCTURAL', 'SIGNATURES', 'BARLINES'],
+                    ['DECORATION'] + r.sample(CATS, 2), ['DECORATION', 'LYRICS', 'DYNAMICS', 'BARLINES', 'STRUCTURAL']])
+    exc = r.choice([None, None, [r.choice(CATS)], r.sample(CATS, r.randint(1, 3)), ['DURATION', 'PITCH', 'ALTERATION', 'REST']])
     enc = r.choice(ENCS if agn else ENCS[:4])
     return dict(types=ts, ids=ids, inc=inc, exc=exc, enc=enc)
 
